@@ -25,4 +25,25 @@ def IsI64Rendering (s : Bytes) (v : Int) : Prop :=
 /-- a byte that is neither a digit nor one of the listed sign characters. -/
 def Foreign (signs : List UInt8) (b : UInt8) : Prop := isDigit b = false ∧ b ∉ signs
 
+/-- integer part of a `to_f64` input: its digits `ip`, written bare or after a `+`
+(`"+"` alone is allowed and has no digits; the bare form may be empty only in front of a `.`). -/
+def IsF64Head (hd ip : Bytes) : Prop := allDigits ip = true ∧ (hd = ip ∨ hd = 43 :: ip)
+
+/-- **The grammar of `to_f64`.**  `s` is accepted with sign `neg`, integer digits `ip` and
+fraction digits `fp` (`none` = no decimal point):
+
+* `s = ["-"] hd` with `hd` a non-empty head — a plain integer; its value must be at most
+  `2^53 - 1` (what binary64 holds exactly);
+* `s = ["-"] hd "." f` with `1 ≤ |f| ≤ 22` fraction digits; all digits taken as one
+  integer must fit in a `u64`.
+
+Quirks this makes explicit: `"+"` is 0, `"-+5"` is -5, `".5"` and `"-.5"` are accepted,
+`"1."`, `"."`, `"-"`, `""` are not, a sign after the first two bytes is not. -/
+def F64Accepts (s : Bytes) (neg : Bool) (ip : Bytes) (fp : Option Bytes) : Prop :=
+  ∃ hd, IsF64Head hd ip ∧
+    match fp with
+    | none => s = (if neg then [45] else []) ++ hd ∧ hd ≠ [] ∧ decVal ip ≤ 2^53 - 1
+    | some f => s = (if neg then [45] else []) ++ (hd ++ 46 :: f) ∧ allDigits f = true ∧ f ≠ [] ∧
+        f.length ≤ 22 ∧ decVal (ip ++ f) ≤ 2^64 - 1
+
 end Jomini.Spec.Scalar
